@@ -323,29 +323,29 @@ def ty_of_ref(r):
 
 
 def _arg(a):
-    return {"name": a["name"], "type": ty_of_ref(a["type"]), "has_default": a["defaultValue"] is not None,
-            "default_text": a["defaultValue"], "desc": a.get("description")}
+    return {"name": a.get("name"), "type": ty_of_ref(a.get("type")), "has_default": a.get("defaultValue") is not None,
+            "default_text": a.get("defaultValue"), "desc": a.get("description")}
 
 
 def _field(f):
-    return {"name": f["name"], "type": ty_of_ref(f["type"]), "args": [_arg(a) for a in f["args"]],
-            "deprecated": f["deprecationReason"] if f["isDeprecated"] else None,
-            "deprecated_flag": f["isDeprecated"], "reason_raw": f["deprecationReason"], "desc": f.get("description")}
+    return {"name": f.get("name"), "type": ty_of_ref(f.get("type")), "args": [_arg(a) for a in f.get("args") or []],
+            "deprecated": f.get("deprecationReason") if f.get("isDeprecated") else None,
+            "deprecated_flag": f.get("isDeprecated"), "reason_raw": f.get("deprecationReason"), "desc": f.get("description")}
 
 
 def decode_type(t):
-    d = {"kind": KIND_OF.get(t["kind"], "?" + str(t["kind"])), "name": t["name"], "desc": t.get("description"),
+    d = {"kind": KIND_OF.get(t.get("kind"), "?" + str(t.get("kind"))), "name": t.get("name"), "desc": t.get("description"),
          "interfaces": [], "fields": [], "members": [], "values": [], "input_fields": [], "possible": None}
     if t.get("fields") is not None:
         d["fields"] = [_field(f) for f in t["fields"]]
     if t.get("interfaces") is not None:
-        d["interfaces"] = [i["name"] for i in t["interfaces"]]
+        d["interfaces"] = [i.get("name") for i in t["interfaces"]]
     if t.get("possibleTypes") is not None:
-        d["possible"] = [p["name"] for p in t["possibleTypes"]]
+        d["possible"] = [p.get("name") for p in t["possibleTypes"]]
         if t["kind"] == "UNION":
             d["members"] = list(d["possible"])
     if t.get("enumValues") is not None:
-        d["values"] = [{"name": v["name"], "deprecated": v["deprecationReason"] if v["isDeprecated"] else None,
+        d["values"] = [{"name": v.get("name"), "deprecated": v.get("deprecationReason") if v.get("isDeprecated") else None,
                         "desc": v.get("description")} for v in t["enumValues"]]
     if t.get("inputFields") is not None:
         d["input_fields"] = [_arg(a) for a in t["inputFields"]]
@@ -357,11 +357,11 @@ def decode_introspection(data):
     s = data["__schema"]
 
     def nm(x):
-        return x["name"] if x is not None else None
-    return {"types": [decode_type(t) for t in s["types"]],
-            "directives": [{"name": x["name"], "locations": list(x["locations"]), "args": [_arg(a) for a in x["args"]],
-                            "desc": x.get("description")} for x in s["directives"]],
-            "query": nm(s["queryType"]), "mutation": nm(s["mutationType"]), "subscription": nm(s["subscriptionType"])}
+        return x.get("name") if x is not None else None
+    return {"types": [decode_type(t) for t in s.get("types") or []],
+            "directives": [{"name": x.get("name"), "locations": list(x.get("locations") or []), "args": [_arg(a) for a in x.get("args") or []],
+                            "desc": x.get("description")} for x in s.get("directives") or []],
+            "query": nm(s.get("queryType")), "mutation": nm(s.get("mutationType")), "subscription": nm(s.get("subscriptionType"))}
 
 
 def strip_for_compare(d, decoded):
@@ -457,10 +457,13 @@ def reported_default(live_type, value, config="blocking"):
     """defaultValue text the real introspection reports for an argument of `live_type` with default `value`."""
     from py_gql.schema import Argument, Field, Int, ObjectType, Schema
     q = ObjectType("Query", [Field("f", Int, args=[Argument("a", live_type, default_value=value)])])
-    st, r = execute(Schema(q), '{ __type(name: "Query") { fields { args { defaultValue } } } }', config)
+    st, r = execute(Schema(q), '{ __type(name: "Query") { fields(includeDeprecated: true) { args { defaultValue } } } }', config)
     if st != "ok" or r.get("errors"):
         return ("raises", r if st == "exc" else "errors")
-    return ("ok", r["data"]["__type"]["fields"][0]["args"][0]["defaultValue"])
+    try:
+        return ("ok", r["data"]["__type"]["fields"][0]["args"][0]["defaultValue"])
+    except (KeyError, IndexError, TypeError):
+        return ("raises", "malformed-answer")
 
 
 def shrink_default(live_type, value):
@@ -570,9 +573,9 @@ def hide_deprecated(data):
     d = copy.deepcopy(data)
     for t in d["__schema"]["types"]:
         if t.get("fields") is not None:
-            t["fields"] = [f for f in t["fields"] if not f["isDeprecated"]]
+            t["fields"] = [f for f in t["fields"] if not f.get("isDeprecated")]
         if t.get("enumValues") is not None:
-            t["enumValues"] = [v for v in t["enumValues"] if not v["isDeprecated"]]
+            t["enumValues"] = [v for v in t["enumValues"] if not v.get("isDeprecated")]
     return d
 
 
